@@ -1764,6 +1764,7 @@ fn run_simplify_batch(cx: &mut Cx, trees: &[T])
 
 fn replay(cx: &mut Cx, input: &str)
 {
+	if let Some(e) = input.strip_prefix("U ") {check_unwritable(cx, e); return;}
 	if let Some(stmt) = input.strip_prefix("X ")
 	{
 		// statement text: `<.name | name> <expr>;`
@@ -1875,6 +1876,72 @@ fn run_table_stream(cx: &mut Cx)
 	}
 }
 
+/// expressions that contain the magnitude 2^63 as a LITERAL (`U <expression>`): it does not fit a signed 64-bit integer, so no
+/// value may come out of any of them — in particular not the wrapped `x - (-2^63)` behind a binary minus; a diagnostic is required
+fn check_unwritable(cx: &mut Cx, expr: &str)
+{
+	let input = format!("U {expr}");
+	cx.report.case(None);
+	cx.report.hit("text: literal 2^63 in an expression");
+	match guarded(|| run_text(&format!(".du32 {expr};")))
+	{
+		Err(p) => cx.report.oracle_fail(input.clone(), format!("panic: {p}")),
+		Ok(Err(_)) => (),   // not even parsed: fine
+		Ok(Ok(parsed)) =>
+		{
+			for (which, o) in [("simplify", &parsed.simp), ("evaluate", &parsed.eval)]
+			{
+				if let Out::Ok{tree: T::C(v), ..} = o
+				{
+					cx.report.oracle_fail(input.clone(), format!("{which} turns an expression containing the literal 2^63 (not a signed 64-bit integer) into the value {v}"));
+				}
+				if let Out::Panic(p) = o {cx.report.oracle_fail(input.clone(), format!("{which} panicked: {p}"));}
+			}
+		},
+	}
+	for stmt in [format!(".du32 (({expr}) >> 32) & 0xFFFFFFFF;"), format!(".du32 ({expr}) & 0xFFFFFFFF;"), format!(".const c, {expr};\n.du8 1;")]
+	{
+		match guarded(|| assemble(&format!(".addr 0;\n{stmt}\n")))
+		{
+			Err(p) => cx.report.oracle_fail(input.clone(), format!("assembling `{stmt}` panicked: {p}")),
+			Ok(Ok(bytes)) => cx.report.oracle_fail(input.clone(), format!("`{stmt}` assembles without a diagnostic and emits {}", hex(&bytes))),
+			Ok(Err(_)) => (),
+		}
+	}
+}
+
+fn run_unwritable(cx: &mut Cx)
+{
+	let lits = ["9223372036854775808", "0x8000000000000000", "0X8000000000000000", "0o1000000000000000000000", "0b1000000000000000000000000000000000000000000000000000000000000000",
+		"0009223372036854775808", "0x0008000000000000000"];
+	let lefts = ["-1", "-5", "-9223372036854775807", "0", "1", "5", "x", "(-1)", "(0 - 1)", "-(1)", "!0", "-1 * 1", "(-1 - 0)"];
+	let mut n = 0u64;
+	for lit in lits
+	{
+		let mut forms: Vec<String> = vec![lit.to_owned(), format!("-{lit}"), format!("- {lit}"), format!("-/* c */{lit}"), format!("--{lit}"), format!("-(-{lit})"), format!("(-{lit})"), format!("-({lit})"),
+			format!("!-{lit}"), format!("-{lit} % 10"), format!("-{lit} + 1"), format!("1 + -{lit}"), format!("0 - -{lit}"), format!("-1 * -{lit}"), format!("-{lit} / -1"),
+			format!("({lit})"), format!("1 + {lit}"), format!("1 * {lit}"), format!("0 & {lit}"), format!("1 << {lit}"), format!("f({lit})"), format!("f(1, -{lit})")];
+		for l in lefts
+		{
+			forms.push(format!("{l} - {lit}"));
+			forms.push(format!("{l}-{lit}"));
+			forms.push(format!("{l} -\t{lit}"));
+			forms.push(format!("({l} - {lit}) >> 32"));
+			forms.push(format!("{l} - {lit} - 1"));
+			forms.push(format!("{l} - -{lit}"));
+			forms.push(format!("{l} + -{lit}"));
+		}
+		for f in forms
+		{
+			let with_x = f.contains('x');
+			let text = if with_x {f.replace('x', "(-3)")} else {f};
+			check_unwritable(cx, &text);
+			n += 1;
+		}
+	}
+	cx.report.hit_n("text: expressions with the literal 2^63", n);
+}
+
 fn run_c07(cx: &mut Cx)
 {
 	cx.report.rule = "every binary operator at every pair of 40 boundary operands (40x40x10, exhaustive) and negate / not at each; \
@@ -1910,6 +1977,7 @@ must emit the little-endian value (or a diagnostic when the value is an error); 
 	for t in trees.iter().skip(16000).step_by(20011).take(8) {cx.report.sample(format!("{} -> {}", t.text(), real_simplify(t).simp_text()));}
 	run_simplify_batch(cx, &trees);
 	run_text_stream(cx);
+	run_unwritable(cx);
 	run_table_stream(cx);
 }
 
